@@ -69,4 +69,38 @@ LEVEL = {
            "exists with tables of ≤ 4096 slots; larger declarations are refused before allocation), C17_tables_never_grow, "
            "C10_short_yields_nothing. Crash/hang/memory of the C parser and CPython are runtime behaviour: observed by the "
            "watchdogged differential (the model must predict the exact outcome of every fuzzed input). Partial.",
+    "C03": "Theorems C03_triples / C03_quads / C03_graphs: for EVERY constructible stream of each class and every sequence of "
+           "well-formed statements each of which fits the tables (stmtFits), serialization succeeds and the rows written are "
+           "accepted by the reference decoder Spec.runRows (written from the format rules, no shared code) and denote exactly "
+           "the input, in order (simulation writer/spec: exact lookup mirror, delta bases, repeated terms; LRU argument that no "
+           "entry referenced by a statement is evicted within it). With C06_rows_independent_of_flow this holds for every "
+           "frame size/flow. Row level; the wire layer is covered by the wire round-trip theorems when present and by the "
+           "byte-exact correspondence; namespace rows by namespace_run. The referee run on the REAL bytes is the outside "
+           "decoder the property asks for.",
+    "C07": "Theorems C07_frames_eq_rows / C07_repartition (decoding frames == decoding the concatenated rows, for every frame "
+           "list incl. empty frames; hence any two partitions agree), C07_grouped_one_per_frame, C07_grouped_concat_eq_flat "
+           "(for every byte string and source kind), C07_one_frame_per_nonempty_sink (grouped serialization), "
+           "C06_rows_independent_of_flow (state carried across frames: one stream, rows independent of cuts).",
+    "C02": "The rdflib serializer is the generic writer model under other loops: C02_graphs_loops_agree and "
+           "C15_serializers_agree_* prove the rdflib loops equal the generic ones on corresponding input, so C03_* (valid, "
+           "denotes the input) and C04 (decoder returns the denotation; C15_integrations_agree_rows: the rdflib adapter "
+           "behaves like the generic one on RDF 1.1 rows) carry over; sets instead of sequences because rdflib's enumeration "
+           "order is arbitrary (the theorems hold for every order). rdflib itself is modelled, not verified. Two genuine "
+           "defects repaired by fix: commits (lexical normalisation; URIRef-keyed lookups).",
+    "C14": "Theorems: C14_no_namespace_rows_when_off (every stream class, sink or generator input), C14_version_two_iff_enabled, "
+           "C14_no_bindings_same_rows, C14_namespace_row_decoding, namespace_run (a successful declaration on a version-2 stream "
+           "is accepted by the reference decoder and denotes exactly (name, IRI); it goes through the same mirrored tables as "
+           "statements, so evictions caused by declarations are covered by the C03 simulation). The end-to-end 'same bindings "
+           "in the same order' is the oracle + referee. Two generic-integration defects repaired by fix: commits.",
+    "C15": "Theorems: C15_to_graph_eq_flat and C07_grouped_concat_eq_flat (one integration: the three entry points return the "
+           "same items, for every byte string), C15_integrations_agree_row/_rows/_frames (the decoder never branches on an "
+           "adapter result and the only difference — quoted-triple support — is never reached on RDF 1.1 rows), "
+           "C15_serializers_agree_triples/_quads (both serializers run the same loops on corresponding generator input).",
+    "C01": "Theorems C01_triples_frames / C01_quads_frames / C01_graphs_frames: for every constructible stream of the class whose "
+           "tables the reader supports, every frame size and flow, both framings, and every sequence of well-formed statements "
+           "each of which fits the tables: serialization succeeds, leaves nothing in the flow, and parsing the frames produced "
+           "(options from the first frame, one decoder across frames) returns EXACTLY the input sequence — same length, order "
+           "and duplicates, xsd:string ≡ plain. Composition of C03 (valid + denotes), C04 (decoder = denotation), C06, C07. "
+           "Frames level; the protobuf wire layer and the delimiting detection are covered by the wire round-trip and C08 "
+           "theorems when present, and by the byte-exact correspondence.",
 }
